@@ -125,8 +125,14 @@ class Session:
         self.loader = _Loader(d, self.gens)
         self.dir = tempfile.mkdtemp(prefix="verif-e2e-")
         fmt = env.vendor_obj(hw.vendor).make_formatter()
+        text = fmt.join(env.to_odict(old_forest))
         with open(os.path.join(self.dir, hostname + ".cfg"), "w", encoding="utf-8") as fh:
-            fh.write(fmt.join(env.to_odict(old_forest)))
+            fh.write(text)
+        # the harness writes the device text with the vendor's formatter; where that text does not parse back to the forest
+        # (RouterOS listing sections that split rewrites by design - outside C04's domain) the session does not represent
+        # the intended device state and callers skip it
+        from annet.annlib.tabparser import parse_to_tree
+        self.representable = env.tree_to_list(parse_to_tree(text, fmt.split)) == env.tree_to_list(env.to_odict(old_forest))
 
     def close(self):
         shutil.rmtree(self.dir, ignore_errors=True)
@@ -151,6 +157,12 @@ class Session:
         from annet import api, cli_args
         args = cli_args.ShowPatchOptions(query=_harness_query(), config=self.dir, acl_safe=bool(acl_safe), indent="  ", no_acl_exclusive=True)
         return list(api._patch_worker(self.dev.id, args, self._stdin(args, self.dir), self.loader, None))
+
+    def patch_diff(self, acl_safe=False):
+        """the (diff, patch tree) pairs annet.api.res_diff_patch yields for `annet patch` (and deploy's --show-diff)"""
+        from annet import api, cli_args
+        args = cli_args.ShowPatchOptions(query=_harness_query(), config=self.dir, acl_safe=bool(acl_safe), indent="  ", no_acl_exclusive=True)
+        return [(d, p) for _res, d, p in api.res_diff_patch(self.dev.id, args, self._stdin(args, self.dir), self.loader, None)]
 
     def gen(self, acl_safe=False):
         from annet import cli_args
@@ -194,4 +206,15 @@ def union_forest(a, b):
         else:
             idx[r] = len(out)
             out.append([r, list(c)])
+    return out
+
+
+def flatten_diff(diff, prefix=()):
+    """{path: op value} over a Diff (list of (op, row, children, match))"""
+    out = {}
+    for item in diff:
+        op, row, children = item[0], item[1], item[2]
+        p = prefix + (row,)
+        out[p] = getattr(op, "value", op)
+        out.update(flatten_diff(children, p))
     return out
